@@ -17,6 +17,7 @@ property's quantifier).
 -/
 import Mqtt.Proofs.BrokerFanoutGen
 import Mqtt.Proofs.BrokerRefineCor
+import Mqtt.Proofs.BrokerAckOrder
 
 set_option linter.unusedSimpArgs false
 
@@ -166,6 +167,20 @@ theorem C07_codes_empty_filter :
 
 /-- the regenerated server maximum is the protocol's -/
 theorem C07_facts_maxQos : Mqtt.Generated.maxQosAllowed = Mqtt.Spec.Broker.maxQos := facts_maxQos
+
+/-- "From that acknowledgement on": the model performs the effects of a SUBSCRIBE /
+UNSUBSCRIBE and emits the SUBACK / UNSUBACK in one atomic step, so every later
+event sees the new subscriptions.  That describes the code because
+`processSubscribe` / `processUnsubscribe` write the acknowledgement after the last
+change to the subscription store and the session (regenerated statement order,
+extract/facts_broker.go section `brokerack`): an acknowledgement written first
+would let a PUBLISH of another connection, processed between the acknowledgement
+and the effects, still be forwarded (resp. not yet be forwarded) - the seeded
+change `C07-unsuback-before-removal`; the harness event `unsubrace` looks for the
+same window dynamically. -/
+theorem C07_ack_follows_effects :
+    Mqtt.Generated.subscribeAckAfterEffects = true ∧ Mqtt.Generated.unsubscribeAckAfterEffects = true :=
+  facts_ack_after_effects
 
 /-! ### (b) UNSUBSCRIBE -/
 
